@@ -479,6 +479,28 @@ class _C14(_RulesBase):
             m = mutate(rng, rng.choice([t, dt, dt + " " + t, "%d %s" % (days, t), "2.5 h", dt + " " + dt]))
             freqs.append("text %s %s" % (rng.choice(["pdate", "phms", "pdhms", "pdatehms", "phmsrange", "pdatelist", "pdur", "pintlist"]), hexs(m)))
         sts.append(Stream("text-faithful", freqs, compare=compare_lines))
+        # values the types allow but no calendar / clock has (month and day 0..255), printed — and what the parsers hand back
+        # next to an error — immediately before valid values are printed in the same process. The ill-formed value is chosen
+        # so that it collides with the valid one under the usual packings of a date into one number (y*10000+m*100+d,
+        # (y*16+m)*32+d, fields modulo 100): (y, m-1, d+100), (y-1, m+100, d), (y, m, d+100k), (y, m+16k, d), ...
+        groups = []
+        for _ in range(6 if tier == "quick" else 40):
+            g = []
+            for _ in range(60 if tier == "quick" else 200):
+                y = rng.choice([rng.randint(-3000, 3000), rng.randint(1300, 2100), rng.choice(self.YEARS)])
+                mo, d = rng.randint(1, 12), rng.randint(1, 31)
+                h, mi, sec = rng.randrange(24), rng.randrange(60), rng.randrange(60)
+                partners = [(y, mo - 1, d + 100), (y - 1, mo + 100, d), (y, mo, d + 100), (y, mo, d + 200), (y, mo + 100, d), (y, mo + 16, d),
+                            (y, mo, d + 32), (y, mo + 12, d), (y + 1, mo, d), (y, mo, d), (y, 0, d), (y, mo, 0), (y - 1, mo + 12, d), (y, mo - 1, d + 31),
+                            (y, mo - 1, d + 30), (y, mo + 1, 0), (y, d, mo)]
+                py, pm, pd = rng.choice(partners)
+                g.append("text abuse %d %d %d" % (py, pm % 256, pd % 256))
+                g.append(rng.choice(["text sdate %d %d %d" % (y, mo, d), "text sdatehms %d %d %d %d %d %d" % (y, mo, d, h, mi, sec),
+                                     "text shms %d %d %d" % (d % 24, mo, d), "text pdate %s" % hexs("%d/%d/%d" % (y, mo, d))]))
+                if rng.random() < 0.5:
+                    g.append(rng.choice(["text sdate %d %d %d" % (y, mo, d), "text shms %d %d %d" % (h, mi, sec), "text sdhms %d %d %d %d" % (d, h, mi, sec)]))
+            groups.append(g)
+        sts.append(Stream("text-after-ill-formed-calls", None, compare=compare_lines, groups=groups))
         return sts
 
     def exhaustive(self, tier):
